@@ -39,6 +39,7 @@ pub struct C18World {
 }
 
 const GUARD: usize = 64 << 10;
+const CHILD_TIMEOUT_S: u64 = 150;
 pub const STACKS: [u64; 2] = [8 << 20, 2 << 20];
 const SHAPES: [&str; 5] = ["asc", "desc", "zigzag", "blocks", "random"];
 const FIRSTS: [&str; 9] = ["none", "remove_min", "remove_max", "next_min", "prev_max", "contains_min", "contains_max", "min", "max"];
@@ -119,7 +120,8 @@ fn grid(tier: Tier) -> Vec<C18World> {
     }
     for (kind, n, op, stack) in [("boolean_nested", 100_000u64, "union", 8u64 << 20), ("boolean_nested", 60_000, "intersection", 2 << 20),
         ("boolean_nested", 100_000, "difference", 8 << 20), ("boolean_grid", 100_000, "xor", 2 << 20), ("boolean_grid", 120_000, "union", 8 << 20),
-        ("boolean_fan", 120_000, "union", 2 << 20), ("boolean_fan", 300_000, "xor", 8 << 20)] {
+        ("boolean_fan", 120_000, "union", 2 << 20), ("boolean_fan", 300_000, "xor", 8 << 20),
+        ("boolean_row", 60_000, "union", 2 << 20), ("boolean_row", 250_000, "xor", 8 << 20)] {
         let mut w = base(kind, stack, n, "asc", "drop");
         w.op = op.into();
         g.push(w);
@@ -468,8 +470,11 @@ fn grid_scenario(w: &C18World) {
     let n = w.n.max(1);
     let side = (n as f64).sqrt().ceil() as u64;
     let mk = |dx: f64| MultiPolygon((0..n).map(|k| Polygon::new(square(3.0 * (k % side) as f64 + dx, 3.0 * (k / side) as f64 + dx, 1.0), vec![])).collect::<Vec<_>>());
-    let (a, b) = (mk(0.0), mk(0.5));
-    marker(&format!("boolean grid {} parts={} edges={}", w.op, n, 8 * n));
+    let (a, mut b) = (mk(0.0), mk(0.5));
+    // one more part that shares a piece of a vertical edge with the first square of `a` (events that leave the sweep
+    // out of order)
+    b.0.push(Polygon::new(LineString(vec![Coord { x: -3.0, y: -0.5 }, Coord { x: -1.0, y: -0.5 }, Coord { x: -1.0, y: 1.5 }, Coord { x: -3.0, y: 1.5 }, Coord { x: -3.0, y: -0.5 }]), vec![]));
+    marker(&format!("boolean grid {} parts={} edges={}", w.op, n, 8 * n + 4));
     let r = match w.op.as_str() {
         "intersection" => a.intersection(&b),
         "difference" => a.difference(&b),
@@ -490,6 +495,25 @@ fn fan_scenario(w: &C18World) {
     let a = MultiPolygon((0..n).map(|i| blade(-1.0, i)).collect::<Vec<_>>());
     let b = MultiPolygon((0..3).map(|i| blade(1.0, n / 2 + 3 * i)).collect::<Vec<_>>());
     marker(&format!("boolean fan {} blades={} edges={}", w.op, n, 3 * n + 9));
+    let r = match w.op.as_str() {
+        "xor" => a.xor(&b),
+        "difference" => a.difference(&b),
+        _ => a.union(&b),
+    };
+    marker(&format!("returned polygons={}", r.0.len()));
+}
+
+/// A box, `n` disjoint unit squares in a row beside it, and a small box that touches the big one along a part of
+/// its vertical edge (the shape of the repository's `touching_boxes` fixture): a result with many parts whose events
+/// leave the sweep slightly out of order.
+fn row_scenario(w: &C18World) {
+    let n = w.n.max(1);
+    let sq = |x0: f64, y0: f64, x1: f64, y1: f64| Polygon::new(LineString(vec![Coord { x: x0, y: y0 }, Coord { x: x1, y: y0 }, Coord { x: x1, y: y1 }, Coord { x: x0, y: y1 }, Coord { x: x0, y: y0 }]), vec![]);
+    let mut parts = vec![sq(0.0, 0.0, 3.0, 3.0)];
+    parts.extend((0..n).map(|k| sq(10.0 + 2.0 * k as f64, 0.0, 11.0 + 2.0 * k as f64, 1.0)));
+    let a = MultiPolygon(parts);
+    let b = MultiPolygon(vec![sq(3.0, 1.0, 4.0, 2.0)]);
+    marker(&format!("boolean row {} parts={} edges={}", w.op, n, 4 * n + 8));
     let r = match w.op.as_str() {
         "xor" => a.xor(&b),
         "difference" => a.difference(&b),
@@ -540,6 +564,7 @@ pub fn child_main(arg: &str) -> i32 {
             "boolean_nested" => nested_scenario(&w),
             "boolean_grid" => grid_scenario(&w),
             "boolean_fan" => fan_scenario(&w),
+            "boolean_row" => row_scenario(&w),
             _ => boolean_scenario(&w),
         }
         depth()
@@ -571,7 +596,7 @@ impl World for C18World {
         }
         let mut r = Rng::stream(seed, "workload");
         let big = if tier == Tier::Thorough { 3_000_000 } else { 1_500_000 };
-        let kind = *r.pick(&["tree", "set", "tree", "set", "tree", "set", "tree", "set", "boolean", "boolean_stairs", "boolean_nested", "boolean_grid", "boolean_fan"]);
+        let kind = *r.pick(&["tree", "set", "tree", "set", "tree", "set", "tree", "set", "boolean", "boolean_stairs", "boolean_nested", "boolean_grid", "boolean_fan", "boolean_row"]);
         let profile = if r.chance(1, 3) { "debug" } else { "release" };
         // sizes log-uniform over 10^3 .. big (thresholds can sit anywhere), smaller caps for unoptimised children
         let logu = |r: &mut Rng, lo: f64, hi: f64| (10f64).powf(lo + (hi - lo) * (r.below(1 << 20) as f64 / (1u64 << 20) as f64)) as u64;
@@ -591,7 +616,7 @@ impl World for C18World {
             op: match kind {
                 "boolean_stairs" => (*r.pick(&["union", "xor"])).into(),
                 "boolean_nested" | "boolean_grid" => (*r.pick(&["union", "xor", "intersection", "difference"])).into(),
-                "boolean_fan" => (*r.pick(&["union", "xor", "difference"])).into(),
+                "boolean_fan" | "boolean_row" => (*r.pick(&["union", "xor", "difference"])).into(),
                 _ => (*r.pick(&["intersection", "difference"])).into(),
             },
             first: (*r.pick(&FIRSTS)).into(),
@@ -628,13 +653,30 @@ impl World for C18World {
             }
         }
         st.inc(&format!("profile_{}", self.profile));
+        // a scenario normally takes seconds; one that runs for minutes (a change that made something quadratic) is
+        // stopped and noted — slowness is not what C18 is about
         let out = Command::new(exe)
             .arg("stack-child")
             .arg(self.to_json().to_string())
             .stdin(Stdio::null())
             .stdout(Stdio::piped())
             .stderr(Stdio::null())
-            .output();
+            .spawn()
+            .and_then(|mut ch| {
+                let t0 = std::time::Instant::now();
+                loop {
+                    if ch.try_wait()?.is_some() {
+                        break;
+                    }
+                    if t0.elapsed().as_secs() > CHILD_TIMEOUT_S {
+                        let _ = ch.kill();
+                        st.inc("observed_children_stopped_after_timeout");
+                        break;
+                    }
+                    std::thread::sleep(std::time::Duration::from_millis(15));
+                }
+                ch.wait_with_output()
+            });
         let mut h = LogHash::new();
         let out = match out {
             Ok(o) => o,
@@ -661,7 +703,10 @@ impl World for C18World {
         let mut dh = LogHash::new();
         dh.add_bytes(format!("{}/{}/{}/{}/{}/{}/{}/{}", self.kind, self.shape, self.teardown, self.stack_bytes, self.post, self.first, self.profile, (self.n as f64).log10().floor()).as_bytes());
         st.distinct.insert(dh.0);
-        let violation = if let Some(sig) = out.status.signal() {
+        let violation = if out.status.signal() == Some(9) {
+            st.notes.insert("a scenario was stopped after the time limit (not a stack finding)".into());
+            None
+        } else if let Some(sig) = out.status.signal() {
             st.inc("children_killed_by_signal");
             Some(Violation {
                 class: "stack_exhausted".into(),
